@@ -242,4 +242,23 @@ CHECKS = {
   'note': TB,
   'technique': 'Coq parser-completeness / tree-read-back theorem over the emission model plus integer and string round-trip theorems over translated tables + generated-value round trips through every encode/decode route against encoding/json\'s own round trip',
  },
+ 'C02': {
+  'text': ("Proof (Coq): the arithmetic / grammar part of the agreement -- for every integer width and EVERY text the integer decoder stores z exactly when the text is "
+           "the JSON integer literal of a z in range (both directions), never a wrapped value, and in stream mode refuses a fraction or exponent before storing (C16 "
+           "theorems, restated for C02); interface{} acceptance = RFC 8259 + float64 range (C05), exact string unescaping (C17); the expressions of the source on which "
+           "agreement hangs (float width, integer map key parsing, the kinds ,string applies to, null for TextUnmarshaler / []byte / json.Number, stream float-tail "
+           "test) are TRANSLATED facts on every run. Observed against encoding/json itself: (a) a deterministic sweep of 47 small destination types (every basic kind, "
+           "named kinds, Unmarshaler / TextUnmarshaler implementers, pointers, slices, arrays, maps with string / integer / TextUnmarshaler keys, interface{}, a struct "
+           "with ,string fields) x ~150 boundary documents (integers at and beyond every range boundary in several spellings, floats at the float32/float64 edges, every "
+           "escape class, base64 shapes, null/true/objects/arrays, duplicate and case-variant keys) x zero / pre-populated x Unmarshal / Decoder / UseNumber / "
+           "DisallowUnknownFields with a frozen (currently empty) expectation list; (b) generated types of the C01 grammar plus implementers and embedded structs, with "
+           "documents generated FOR the type (null and wrong kinds in every position, unknown / duplicate / escaped / case-variant keys, short and long arrays, white "
+           "space), zero and pre-populated destinations, all entry points, in a child process (a decoder that writes the wrong shape can make the comparison fault). "
+           "Ten defects found and repaired (null into a TextUnmarshaler value wrote one nil word into the value; stream integers took a prefix of 1.5 / 1e2; float32 "
+           "overflow stored Inf; null into json.Number an error; null kept a []byte; integer map keys \"01\" / \"+1\" refused and \"null\" accepted; bool passed as "
+           "text to TextUnmarshaler; ,string demanded on pointers to aggregates; ...); two recorded as open findings. Partial: merged maps, reused pointers and slices, "
+           "nil versus empty are observed, not modelled; letters outside ASCII in keys keep their case in generated documents (their folding is C15's open finding)."),
+  'note': TB,
+  'technique': 'Coq integer-range iff theorem and translated decoder-shape facts + deterministic destination x boundary-document sweep with frozen expectations and generated (type, document-for-type, initial value) triples against encoding/json in a crash-attributing child process',
+ },
 }
